@@ -273,6 +273,8 @@ def check(ctx, idx, A):
         outcomes.add(outcome)
         if want is None:
             bad.append((asg, outcome, p, "reaches `%s` without testing %s" % (outcome, PRED_TEXT.get(missing, missing))))
+        elif want == "<wanted type's own error>" and outcome == "ResultTypeNotValid":
+            continue  # a finished result of the wrong kind may be refused by the wanted type's own error or re-reported as "result of the wrong type": both name the result
         elif want != outcome:
             bad.append((asg, outcome, p, "for %s the outcome is `%s`, the specification says `%s`" % (show(asg), outcome, want)))
     need = {"ResultDoesNotExist", "ParameterNotValid", "ResultNotFuzzy", "ResultIsFuzzy", "ResultTypeNotValid", "accept"}
